@@ -95,3 +95,9 @@ chk("C17", "GEN+SQFSCK", "exploration",
     "tails, first match wins, per-flag storage facts, default policy for unflagged files, -T only for files > B, export table iff -e) with contents unchanged and the image valid.",
     "Small scope (<=4 files, 2 directories); fnmatch modelled for * and ? only. Trusts SQFSCK.",
     "bounded exhaustive enumeration of trees x sort files x options against layout facts from an independent decoder", "3/C17")
+
+chk("C16", "GEN+SQFSCK", "exploration",
+    "Every name of length 1..2 (quick) / 1..3 (thorough) over {a, space, tab, \", \\, #, ', 0xE9} as file, directory with child and device, every symlink target of length <=2 over the "
+    "alphabet plus '/', x --unpack-root variants: gensquashfs(directory) -> rdsquashfs --describe / --unpack-path -> gensquashfs --pack-file must be accepted and decode to the same tree.",
+    "String length <=3; root inode attributes not compared (listing has no line for '/'). Trusts SQFSCK.",
+    "bounded exhaustive enumeration of names/targets through the real tool pipeline", "3/C16")
